@@ -124,7 +124,7 @@ Lemma incr_keeps_deadline d k inc n d' e :
   exists e', get_entry d' k = Some e' /\ e_exp e' = e_exp e.
 Proof.
   intros Hg. unfold eng_incr_by. rewrite Hg. destruct (e_val e); try discriminate.
-  destruct (parse_i64 b); [|discriminate]. destruct (in_i64 (z + inc)); [|discriminate].
+  destruct (parse_canonical b); [|discriminate]. destruct (in_i64 (z + inc)); [|discriminate].
   intros H; inversion H; subst. rewrite get_entry_put_same. eexists. split; reflexivity.
 Qed.
 Lemma append_keeps_deadline d k v e b r d' :
@@ -621,7 +621,7 @@ Proof.
   - unfold h_append in H1. ix_solve.
   - unfold h_strlen in H1. ix_solve.
   - unfold h_getrange in H1. ix_solve.
-  - unfold h_setrange in H1. ix_solve.
+  - unfold h_setrange, eng_setrange in H1. ix_solve.
   - unfold h_type in H1. ix_solve.
   - unfold h_rename in H1. destruct (negb (nparts parts =? 3)); [inversion H1; subst; exact Hw|].
     destruct (nth_arg parts 1); [|inversion H1; subst; exact Hw].
